@@ -973,7 +973,15 @@ fn collect_packages_in_item(
             }
         }
         ast::Item::Package(_) | ast::Item::Import(_) | ast::Item::Interface(_) => {}
-        ast::Item::TypeAlias(_) => {}
+        ast::Item::TypeAlias(alias) => {
+            // `type Time = time.Time` keeps `import "time"` alive.
+            if let crate::go::goty::GoType::TName { name } = &alias.ty
+                && let Some((pkg, _)) = name.split_once('.')
+                && imports.contains(pkg)
+            {
+                used.insert(pkg.to_string());
+            }
+        }
     }
 }
 
